@@ -1,4 +1,24 @@
-(* placeholder until the proofs are integrated *)
-From DictIO Require Import Chars Str Value Scalar.
-Theorem C11_placeholder : True. Proof. exact I. Qed.
-Print Assumptions C11_placeholder.
+(* C11  XML mapping (element-tree level; text <-> element tree is the XML libraries' business). *)
+From Coq Require Import NArith ZArith List Bool.
+From DictIO Require Import Chars Str Value Scalar SDict KeyPath Reader Expr Xml TreeSpec LayoutSpec SemProofs.
+Import ListNotations.
+
+(* the running node number added on reading is removed again on writing *)
+Theorem C11_numbering_removed : forall i tag, (i < 1000000)%N ->
+  strip_numbering (pad6 i ++ [c_us] ++ tag) = tag.
+Proof. exact numbering_removed. Qed.
+Print Assumptions C11_numbering_removed.
+
+(* writing a dict: every scalar leaf under an ordinary key becomes the text of a child element named by that key *)
+Theorem C11_write_leaf : forall tag kvs k v, wf (Dict kvs) = true ->
+  alookup k kvs = Some (Leaf v) -> special_xml_key (key_text_xml k) = false -> v <> SNone ->
+  In (Elem (strip_numbering (key_text_xml k)) [] (Some (py_str v)) []) (elem_children (populate tag (Dict kvs))).
+Proof. exact populate_leaf. Qed.
+Print Assumptions C11_write_leaf.
+
+(* element order is preserved: children appear in the order of the dict's ordinary keys *)
+Theorem C11_write_order : forall tag kvs,
+  map (fun e => match e with Elem t _ _ _ => t end) (elem_children (populate tag (Dict kvs))) =
+  map (fun kv => strip_numbering (key_text_xml (fst kv))) (filter (fun kv => negb (special_xml_key (key_text_xml (fst kv)))) kvs).
+Proof. exact populate_order. Qed.
+Print Assumptions C11_write_order.
